@@ -418,6 +418,86 @@ fn view(r: &Result<SearchResult, String>) -> Result<Option<u64>, String> {
     match r { Ok(Ok(x)) => Ok(Some(ud(*x))), Ok(Err(_)) => Ok(None), Err(e) => Err(e.clone()) }
 }
 
+/// table-based request bound: rbf(delta) = tab[min(delta, H)] (tab[0] = 0, non-decreasing, NOT necessarily sub-additive)
+#[derive(Clone, Debug)]
+struct TabRb { tab: Vec<u64> }
+impl TabRb {
+    fn at(&self, delta: u64) -> u64 { self.tab[(delta as usize).min(self.tab.len() - 1)] }
+    fn random(r: &mut Rng, h: usize, first_positive: bool) -> TabRb {
+        let mut tab = vec![0u64]; let mut v = 0u64;
+        for i in 1..=h { v += if i == 1 && first_positive { 1 + r.below(3) } else if r.below(3) == 0 { r.below(4) } else { 0 }; tab.push(v); }
+        TabRb { tab }
+    }
+}
+impl RequestBound for TabRb {
+    fn service_needed(&self, delta: Duration) -> Service { s(self.at(ud(delta))) }
+    fn least_wcet_in_interval(&self, _delta: Duration) -> Service { s(1) }
+    fn steps_iter<'a>(&'a self) -> Box<dyn Iterator<Item = Duration> + 'a> {
+        Box::new((1..self.tab.len() as u64).filter(move |x| self.at(*x - 1) < self.at(*x)).map(d))
+    }
+    fn job_cost_iter<'a>(&'a self, _delta: Duration) -> Box<dyn Iterator<Item = Service> + 'a> { Box::new(std::iter::empty()) }
+}
+/// the analyses that take arbitrary request bounds, on random step tables (bursty, not sub-additive): here the offsets
+/// next to the end of the busy window matter, which sporadic task sets never exercise
+fn check_analyses_tab(seed: u64) -> i32 {
+    let mut r = Rng(seed ^ 0x7ab1e);
+    for _ in 0..4000 {
+        let h = 4 + r.below(12) as usize;
+        let tua = TabRb::random(&mut r, h, true);
+        let nhp = r.below(3) as usize;
+        let hps: Vec<TabRb> = (0..nhp).map(|_| TabRb::random(&mut r, h, false)).collect();
+        let limit = 1 + r.below(40); let b = r.below(4);
+        let hp_f = |x: u64| hps.iter().map(|t| t.at(x)).sum::<u64>();
+        let tua_f = |x: u64| tua.at(x);
+        let mut desc = format!("{{\"tua_table\": {:?}, \"hp_tables\": {:?}, \"blocking\": {}, \"limit\": {}}}", tua.tab, hps.iter().map(|t| t.tab.clone()).collect::<Vec<_>>(), b, limit);
+        macro_rules! cmp { ($name:expr, $got:expr, $exp:expr) => {{
+            let got = view(&guarded(|| $got)); let exp = $exp;
+            if got != Ok(exp) { return fail($name, desc.clone(), format!("{:?}", got), format!("{:?}", exp)); }
+        }}}
+        cmp!("fixed_priority::fully_preemptive::dedicated_uniproc_rta", fixed_priority::fully_preemptive::dedicated_uniproc_rta(&tua, &hps, d(limit)), fpx(&tua_f, &hp_f, 0, 0, limit));
+        cmp!("fixed_priority::floating_nonpreemptive::dedicated_uniproc_rta",
+             fixed_priority::floating_nonpreemptive::dedicated_uniproc_rta(&fixed_priority::floating_nonpreemptive::TaskUnderAnalysis { rbf: &tua, blocking_bound: s(b) }, &hps, d(limit)), fpx(&tua_f, &hp_f, b, 0, limit));
+        // FIFO on the sum of all tables
+        let mut all = hps.clone(); all.push(tua.clone());
+        let tot = |x: u64| tua_f(x) + hp_f(x);
+        let exp = dscan(limit, &|x| tot(x)).map(|l| (0..l).map(|a| tot(a + 1).saturating_sub(a)).max().unwrap_or(0));
+        cmp!("fifo::dedicated_uniproc_rta", fifo::dedicated_uniproc_rta(&demand::Slice::of(&all), d(limit)), exp);
+        // fully preemptive EDF, arbitrary deadlines
+        let dl0 = 1 + r.below(20);
+        let dls: Vec<u64> = hps.iter().map(|_| 1 + r.below(20)).collect();
+        let others: Vec<_> = hps.iter().zip(dls.iter()).map(|(rb, dl)| edf::fully_preemptive::Task { rbf: rb, deadline: d(*dl) }).collect();
+        let exp_edf = (|| {
+            let n = dls.len();
+            let l = dscan(limit, &|x| hp_f(x) + tua_f(x))?;
+            let mut best = 0u64;
+            for a in 0..l {
+                let af = dscan(limit, &|x| tua_f(a + 1) + (0..n).map(|i| hps[i].at(x.min((a + 1 + dl0).saturating_sub(dls[i])))).sum::<u64>())?;
+                best = best.max(af.saturating_sub(a));
+            }
+            Some(best)
+        })();
+        desc = format!("{{\"tua_table\": {:?}, \"deadline\": {}, \"other_tables\": {:?}, \"deadlines\": {:?}, \"limit\": {}}}", tua.tab, dl0, hps.iter().map(|t| t.tab.clone()).collect::<Vec<_>>(), dls, limit);
+        cmp!("edf::fully_preemptive::dedicated_uniproc_rta", edf::fully_preemptive::dedicated_uniproc_rta(&edf::fully_preemptive::Task { rbf: &tua, deadline: d(dl0) }, &others, d(limit)), exp_edf);
+        // floating non-preemptive EDF
+        let segs: Vec<u64> = hps.iter().map(|_| 1 + r.below(4)).collect();
+        let fl_others: Vec<_> = hps.iter().zip(dls.iter()).zip(segs.iter()).map(|((rb, dl), sg)| edf::floating_nonpreemptive::InterferingTask { rbf: rb, deadline: d(*dl), max_np_segment: s(*sg) }).collect();
+        let exp_fl = (|| {
+            let n = dls.len();
+            let l = dscan(limit, &|x| hp_f(x) + tua_f(x))?;
+            let mut best = 0u64;
+            for a in 0..l {
+                let blk = (0..n).filter(|&i| dls[i] > dl0 + a && hps[i].at(1) > 0).map(|i| segs[i].saturating_sub(1)).max().unwrap_or(0);
+                let af = dscan(limit, &|x| blk + tua_f(a + 1) + (0..n).map(|i| hps[i].at(x.min((a + 1 + dl0).saturating_sub(dls[i])))).sum::<u64>())?;
+                best = best.max(af.saturating_sub(a));
+            }
+            Some(best)
+        })();
+        cmp!("edf::floating_nonpreemptive::dedicated_uniproc_rta",
+             edf::floating_nonpreemptive::dedicated_uniproc_rta(&edf::floating_nonpreemptive::TaskUnderAnalysis { rbf: &tua, deadline: d(dl0) }, &fl_others, d(limit)), exp_fl);
+    }
+    0
+}
+
 fn check_analyses(seed: u64) -> i32 {
     let mut r = Rng(seed ^ 0xa11a);
     for iter in 0..1500 {
@@ -628,6 +708,44 @@ fn check_ros2(seed: u64) -> i32 {
     0
 }
 
+/// ECRTS'19 analyses on random step tables (not sub-additive): exercises the offsets next to the end of the busy window
+fn check_ros2_tab(seed: u64) -> i32 {
+    use response_time_analysis::ros2;
+    let mut r = Rng(seed ^ 0x20527ab);
+    for _ in 0..4000 {
+        let p = 1 + r.below(5); let q = 1 + r.below(p); let dl = q + r.below(p - q + 1);
+        let (sb, pp, qq, dd, sdesc) = supply_case(r.below(3), q, dl, p);
+        let sbf = move |t: u64| sbf_spec(pp, qq, dd, t as u128) as u64;
+        let limit = 1 + r.below(50);
+        let h = 4 + r.below(12) as usize;
+        let own = TabRb::random(&mut r, h, true);
+        let other = TabRb::random(&mut r, h, false);
+        let b = r.below(3);
+        let desc = format!("{{\"supply\": {}, \"limit\": {}, \"own_table\": {:?}, \"interfering_table\": {:?}, \"blocking\": {}}}", sdesc, limit, own.tab, other.tab, b);
+        let ecrts = |dem: &dyn Fn(u64) -> u64, wb: &dyn Fn(u64) -> u64, w2: &dyn Fn(u64, u64) -> u64| -> Option<u64> {
+            let max_bw = scan_sbf(&sbf, 0, limit, wb)?;
+            let mut best = 0u64;
+            for a in 0..=max_bw {
+                if !(dem(a) < dem(a + 1)) { continue; }
+                best = best.max(scan_sbf(&sbf, a, limit, &|x| w2(a, x))?);
+            }
+            Some(best)
+        };
+        // least_wcet_in_interval of a table is the constant 1
+        let intf_iv = |a: u64, resp: u64| if resp > 1 { a + resp - 1 + 1 } else { a + 1 };
+        macro_rules! cmp { ($name:expr, $got:expr, $exp:expr) => {{
+            let got = view(&guarded(|| $got)); let exp = $exp;
+            if got != Ok(exp) { return fail($name, desc.clone(), format!("{:?}", got), format!("{:?}", exp)); }
+        }}}
+        cmp!("ros2::rta_event_source", ros2::rta_event_source(&*sb, &own, d(limit)), ecrts(&|x| own.at(x), &|x| own.at(x), &|a, _| own.at(a + 1)));
+        cmp!("ros2::rta_timer", ros2::rta_timer(&*sb, &own, &other, s(b), d(limit)),
+             ecrts(&|x| own.at(x), &|x| own.at(x) + b + other.at(x), &|a, x| own.at(a + 1) + other.at(intf_iv(a, x)) + b));
+        cmp!("ros2::rta_polling_point_callback", ros2::rta_polling_point_callback(&*sb, &own, &other, d(limit)),
+             ecrts(&|x| own.at(x), &|x| own.at(x) + other.at(x), &|a, x| own.at(a + 1) + other.at(intf_iv(a, x))));
+    }
+    0
+}
+
 fn check_ros2_bw_all(seed: u64) -> i32 {
     use response_time_analysis::ros2;
     let mut r = Rng(seed ^ 0x2052);
@@ -782,15 +900,15 @@ pub fn search(obligation: &str, seed: u64) -> i32 {
     let mut rc = 0;
     if let Some(cat) = o.strip_prefix("cat:") {
         rc = match cat { "supply" => run(check_supply), "fixed_point" => run(check_fixed_point), "arrival" => run(check_arrival), "steps" => run(check_steps),
-                         "wcet_demand" => run(check_wcet_demand), "analyses" => run(check_analyses), "ros2" => run(check_ros2), "ros2_all_scalar" => run(check_ros2_all_scalar), "ros2_bw_all" => run(check_ros2_bw_all), "ros2_all_multiframe" => run(check_ros2_all_multiframe), _ => 3 };
+                         "wcet_demand" => run(check_wcet_demand), "analyses" => { let rc = run(check_analyses); if rc == 0 { run(check_analyses_tab) } else { rc } }, "ros2" => { let rc = run(check_ros2); if rc == 0 { run(check_ros2_tab) } else { rc } }, "ros2_all_scalar" => run(check_ros2_all_scalar), "ros2_bw_all" => run(check_ros2_bw_all), "ros2_all_multiframe" => run(check_ros2_all_multiframe), _ => 3 };
     }
     else if o.contains("src/arrival/steps") || o.contains("src/arrival/dmin") || o.contains("arrival_curve_prefix") { rc = run(check_steps); }
     else if o.contains("src/supply/") { rc = run(check_supply); if rc == 0 { rc = run(check_fixed_point); } }
-    else if o.contains("src/fixed_point.rs") || o.contains("src/time.rs") { rc = run(check_fixed_point); if rc == 0 { rc = run(check_analyses); } }
+    else if o.contains("src/fixed_point.rs") || o.contains("src/time.rs") { rc = run(check_fixed_point); if rc == 0 { rc = run(check_analyses); } if rc == 0 { rc = run(check_analyses_tab); } }
     else if o.contains("src/arrival/") { rc = run(check_arrival); }
     else if o.contains("src/wcet/") || o.contains("src/demand/") { rc = run(check_wcet_demand); }
-    else if o.contains("src/ros2/") { rc = run(check_ros2); }
-    else if o.contains("src/fixed_priority/") || o.contains("src/fifo/") || o.contains("src/edf/") { rc = run(check_analyses); }
+    else if o.contains("src/ros2/") { rc = run(check_ros2); if rc == 0 { rc = run(check_ros2_tab); } }
+    else if o.contains("src/fixed_priority/") || o.contains("src/fifo/") || o.contains("src/edf/") { rc = run(check_analyses); if rc == 0 { rc = run(check_analyses_tab); } }
     if !ran { return 3; }
     if rc == 0 { println!("mirror domain exhausted without a failing input"); }
     rc
@@ -804,7 +922,9 @@ pub fn replay(json: &str) -> i32 {
         else if mirror.starts_with("arrival::") { Some(check_arrival) }
         else if mirror.starts_with("steps::") || mirror.starts_with("conv::") { Some(check_steps) }
         else if mirror.starts_with("wcet::") || mirror.starts_with("demand::") { Some(check_wcet_demand) }
+        else if mirror.starts_with("ros2::") && json.contains("_table") { Some(check_ros2_tab) }
         else if mirror.starts_with("ros2::") { Some(check_ros2) }
+        else if mirror.contains("dedicated_uniproc_rta") && json.contains("_table") { Some(check_analyses_tab) }
         else if mirror.contains("dedicated_uniproc_rta") { Some(check_analyses) } else { None };
     let seed = json.split("\"seed\": ").nth(1).and_then(|x| x.trim_end_matches('}').trim().parse().ok()).unwrap_or(0);
     match f { Some(f) => f(seed), None => 2 }
